@@ -1670,6 +1670,19 @@ class Kconfig(object):
                         sym._loaded_as_default = False
                     sym.present_in_current_sdkconfig = True
 
+            if replace:
+                # If we're replacing the configuration, unset the symbols that didn't get set. This has to happen
+                # before the default-marked entries are compared with the Kconfig defaults: a user value left over
+                # from the previous configuration is not part of the one being loaded.
+
+                for sym in self.unique_defined_syms:
+                    if not sym._was_set:
+                        sym.unset_value()
+
+                for choice in self.unique_choices:
+                    if not choice._was_set:
+                        choice.unset_value()
+
             for sym in symbols_with_default_values:
                 sym.resolve_defaults()
 
@@ -1682,18 +1695,6 @@ class Kconfig(object):
 
             for choice in self.unique_choices:
                 choice._invalidate()
-
-        if replace:
-            # If we're replacing the configuration, unset the symbols that
-            # didn't get set
-
-            for sym in self.unique_defined_syms:
-                if not sym._was_set:
-                    sym.unset_value()
-
-            for choice in self.unique_choices:
-                if not choice._was_set:
-                    choice.unset_value()
 
         # All values are loaded now: report promptless symbols whose Kconfig value differs from sdkconfig
         for sym in promptless_with_default_values:
